@@ -120,5 +120,28 @@ def register() -> None:
     mod = sys.modules[__name__]
     for name in dir(mod):
         obj = getattr(mod, name)
-        if isinstance(obj, type) and obj.__module__ == __name__ and name.startswith("V") and name != "VAbort":
+        if isinstance(obj, type) and obj.__module__ == __name__ and name.startswith("V") and name not in ("VAbort", "VWeirdFloat", "VBadEq"):
             ProcessorRegistry.register_processor(name, obj)
+
+
+class VWeirdFloat(FloatDataType):
+    """A FloatDataType whose user-visible hooks misbehave (tracing must tolerate them)."""
+
+    def __len__(self):
+        raise RuntimeError("len() not supported")
+
+    def __repr__(self):
+        raise RuntimeError("repr() not supported")
+
+    def to_bytes(self):
+        raise RuntimeError("to_bytes() not supported")
+
+
+class VBadEq:
+    """Context value whose __eq__ raises and which is not JSON serialisable."""
+
+    def __eq__(self, other):
+        raise RuntimeError("== not supported")
+
+    def __hash__(self):
+        return 7
